@@ -68,7 +68,22 @@ class Guard:
 
 def construct(rng, x, y, guard):
     from traffic_weaver import Weaver
-    t = int(rng.integers(0, 7))
+    t = int(rng.integers(0, 8))
+    if t == 7:
+        import os
+        import tempfile
+        fd, path = tempfile.mkstemp(prefix="twverif-c09-", suffix=".csv")
+        with os.fdopen(fd, "w") as f:
+            for a, b in zip(x, y):
+                f.write("%r,%r\n" % (float(a), float(b)))
+        try:
+            wv = Weaver.from_csv(path)
+        finally:
+            os.remove(path)
+        gx, gy = wv.get()
+        if not (np.array_equal(gx, np.asarray(x, dtype=float)) and np.array_equal(gy, np.asarray(y, dtype=float))):
+            raise AssertionError("from_csv did not reproduce the file: %r %r" % (gx[:3], x[:3]))
+        return wv, "from_csv"
     if t <= 2:
         xin, xk = gen.as_container(rng, x)
         yin, yk = gen.as_container(rng, y)
